@@ -836,7 +836,7 @@ def _empty_container(v) -> Optional[str]:
 
 def _loop_to_comp(st, nxt, pair_ok=None):
     """`x = []` + `for v in it: [if c:] x.append(e)`  ->  `x = [e for v in it if c]` (also set / dict, nested loops, `if c: continue`)."""
-    if nxt is None or not isinstance(nxt, ast.For) or nxt.orelse:
+    if nxt is None or not (isinstance(nxt, ast.For) and not nxt.orelse or isinstance(nxt, ast.If)):
         return None
     if isinstance(st, ast.Assign) and len(st.targets) == 1 and isinstance(st.targets[0], ast.Name):
         name = st.targets[0].id
@@ -845,11 +845,18 @@ def _loop_to_comp(st, nxt, pair_ok=None):
     else:
         return None
     kind = _empty_container(st.value)
+    base = None
+    if kind is None and isinstance(st.value, ast.Call) and isinstance(st.value.func, ast.Name) and st.value.func.id == "set" and len(st.value.args) == 1 and not st.value.keywords \
+            and isinstance(st.value.args[0], (ast.Name, ast.Attribute)):
+        kind, base = "set", st.value.args[0]      # a copy of a set, then additions: `base | {...}`
     if kind is None:
         return None
     gens = []
     cur = nxt
     leaf = None
+    invariant = None
+    if isinstance(cur, ast.If) and not cur.orelse and len(cur.body) == 1 and isinstance(cur.body[0], ast.For) and pure(cur.test) and not mentions(cur.test, name):
+        invariant, cur = cur.test, cur.body[0]      # a loop-invariant pure test around the loop is a filter of every element
     while True:
         if not isinstance(cur, ast.For) or cur.orelse or mentions(cur.iter, name) or mentions(cur.target, name):
             return None
@@ -900,8 +907,16 @@ def _loop_to_comp(st, nxt, pair_ok=None):
         comp = ast.DictComp(key=leaf.targets[0].slice, value=leaf.value, generators=gens)
     if comp is None:
         return None
+    if invariant is not None:
+        if any(mentions(invariant, n.id) for g in gens for n in ast.walk(g.target) if isinstance(n, ast.Name)):
+            return None
+        gens[0].ifs.insert(0, invariant)
     new = copy.copy(st)
     new.value = L(comp, nxt)
+    if base is not None:
+        if not isinstance(comp, ast.SetComp):
+            return None
+        new.value = L(ast.BinOp(left=base, op=ast.BitOr(), right=L(comp, nxt)), nxt)
     return new
 
 
@@ -1206,7 +1221,7 @@ class _Subst(ast.NodeTransformer):
         return n
 
 
-def _helper_instance(helper, call, caller_names: set, is_method: bool):
+def _helper_instance(helper, call, caller_names: set, is_method: bool, site_targets=None):
     """(prologue statements, body statements) of the helper specialised for the call, or None."""
     a = helper.args
     if a.vararg or a.kwarg or a.kwonlyargs or a.posonlyargs or any(isinstance(x, ast.Starred) for x in call.args) or any(k.arg is None for k in call.keywords):
@@ -1247,9 +1262,33 @@ def _helper_instance(helper, call, caller_names: set, is_method: bool):
         body = body[1:]
     holder = ast.Module(body=body, type_ignores=[])
     stored = {x.id for x in ast.walk(holder) if isinstance(x, ast.Name) and isinstance(x.ctx, (ast.Store, ast.Del))} | {x.name for x in ast.walk(holder) if isinstance(x, ast.ExceptHandler) and x.name}
+    # `t1, t2 = helper(...)` where the helper ends with `return a, b`: a and b simply are t1 and t2
+    ret_names = {}
+    if site_targets and holder.body and isinstance(holder.body[-1], ast.Return) and holder.body[-1].value is not None \
+            and sum(1 for x in ast.walk(holder) if isinstance(x, ast.Return)) == 1:
+        rv = holder.body[-1].value
+        rvs = rv.elts if isinstance(rv, ast.Tuple) else [rv]
+        if len(rvs) == len(site_targets) and all(isinstance(x, ast.Name) for x in rvs) and len({x.id for x in rvs}) == len(rvs):
+            for x, tname in zip(rvs, site_targets):
+                others = {y.id for y in ast.walk(holder) if isinstance(y, ast.Name)} - {x.id}
+                if tname != x.id and tname in others:
+                    ret_names = {}
+                    break
+                ret_names[x.id] = tname
+    if ret_names:
+        for x in ast.walk(holder):
+            if isinstance(x, ast.Name) and x.id in ret_names:
+                x.id = ret_names[x.id]
+        names_map = {n: ret_names.get(n, n) for n in names}
+        bound = {names_map[n]: v for n, v in bound.items()}
+        names = [names_map[n] for n in names]
+        stored = {ret_names.get(n, n) for n in stored}
+    keep = set(site_targets or ()) if ret_names else set()
     # helper locals that clash with the caller's names are renamed
     ren = {}
     for nm in sorted(stored):
+        if nm in keep:
+            continue
         if nm in caller_names and nm not in names:
             k = nm + "_h"
             while k in caller_names or k in stored:
@@ -1266,6 +1305,8 @@ def _helper_instance(helper, call, caller_names: set, is_method: bool):
         n_reads = sum(1 for x in ast.walk(holder) if isinstance(x, ast.Name) and x.id == n and isinstance(x.ctx, ast.Load))
         if n not in stored and (isinstance(v, (ast.Name, ast.Constant)) or (pure(v) and True) or n_reads <= 1 and _read_first(holder, n)):
             mapping[n] = v
+        elif n in stored and isinstance(v, ast.Name) and v.id == n and n in keep:
+            pass      # `data = helper(data)`: the parameter is the caller's variable, rebound by the call's result anyway
         else:
             k = n
             while k in caller_names:
@@ -1353,7 +1394,13 @@ def inline_helpers(tree: ast.Module, known_paths: set, functions) -> int:
                             continue
                         if h is None:
                             continue
-                        inst = _helper_instance(h, c, caller_names, is_m)
+                        site_targets = None
+                        if head is st and isinstance(st, ast.Assign) and st.value is c and len(st.targets) == 1:
+                            tg = st.targets[0]
+                            tgs = tg.elts if isinstance(tg, ast.Tuple) else [tg]
+                            if all(isinstance(x, ast.Name) for x in tgs):
+                                site_targets = [x.id for x in tgs]
+                        inst = _helper_instance(h, c, caller_names, is_m, site_targets)
                         if inst is None:
                             continue
                         prologue, body = inst
@@ -1375,6 +1422,8 @@ def inline_helpers(tree: ast.Module, known_paths: set, functions) -> int:
                             def mk(r, st=st):
                                 a_ = copy.deepcopy(st)
                                 a_.value = r.value if r.value is not None else L(ast.Constant(value=None), r)
+                                if isinstance(a_, ast.Assign) and len(a_.targets) == 1 and ast.dump(_strip_ctx(a_.targets[0])) == ast.dump(_strip_ctx(a_.value)):
+                                    return []      # `t1, t2 = (t1, t2)`
                                 return [a_]
                             new = prologue + _map_returns(body, mk)
                         elif body and isinstance(body[-1], ast.Return) and body[-1].value is not None and _tail_returns_only(body) and not any(isinstance(x, ast.Return) for s in body[:-1] for x in _walk_no_scope(s)):
@@ -1984,6 +2033,37 @@ def candidates2(fn, stored_attrs) -> List[Cand]:
                     def f(stmts=stmts, i=i, st=st, merged=merged):
                         stmts[i:i + 1] = merged
                     out.append(("zip-branches", f))
+            # `d.update({k: v for ...})` <-> loop storing;  `s.update(e for ...)` <-> `s |= {e for ...}`
+            if isinstance(st, ast.Expr) and isinstance(st.value, ast.Call) and isinstance(st.value.func, ast.Attribute) and st.value.func.attr == "update" and isinstance(st.value.func.value, ast.Name) \
+                    and len(st.value.args) == 1 and not st.value.keywords:
+                arg, xname = st.value.args[0], st.value.func.value.id
+                if isinstance(arg, ast.DictComp) and not mentions(arg, xname) and (pure(arg.key) or pure(arg.value)):
+                    def f(stmts=stmts, i=i, st=st, arg=arg, xname=xname):
+                        body = L(ast.Assign(targets=[L(ast.Subscript(value=L(ast.Name(id=xname, ctx=ast.Load()), st), slice=arg.key, ctx=ast.Store()), st)], value=arg.value), st)
+                        for g in reversed(arg.generators):
+                            for t in reversed(g.ifs):
+                                body = L(ast.If(test=t, body=[body], orelse=[]), st)
+                            body = L(ast.For(target=g.target, iter=g.iter, body=[body], orelse=[]), st)
+                        stmts[i] = body
+                    out.append(("update-loop", f))
+                if isinstance(arg, (ast.GeneratorExp, ast.SetComp)) and not mentions(arg, xname):
+                    def f(stmts=stmts, i=i, st=st, arg=arg, xname=xname):
+                        stmts[i] = L(ast.AugAssign(target=L(ast.Name(id=xname, ctx=ast.Store()), st), op=ast.BitOr(), value=L(ast.SetComp(elt=arg.elt, generators=arg.generators), arg)), st)
+                    out.append(("update-ior", f))
+            if isinstance(st, ast.AugAssign) and isinstance(st.op, ast.BitOr) and isinstance(st.target, ast.Name) and isinstance(st.value, ast.SetComp):
+                def f(stmts=stmts, i=i, st=st):
+                    call = L(ast.Call(func=L(ast.Attribute(value=L(ast.Name(id=st.target.id, ctx=ast.Load()), st), attr="update", ctx=ast.Load()), st), args=[L(ast.GeneratorExp(elt=st.value.elt, generators=st.value.generators), st.value)], keywords=[]), st)
+                    stmts[i] = L(ast.Expr(value=call), st)
+                out.append(("ior-update", f))
+            if isinstance(st, ast.For) and not st.orelse and len(st.body) == 1 and isinstance(st.body[0], ast.Assign) and len(st.body[0].targets) == 1 and isinstance(st.body[0].targets[0], ast.Subscript) \
+                    and isinstance(st.body[0].targets[0].value, ast.Name) and not mentions(st.iter, st.body[0].targets[0].value.id) and (pure(st.body[0].targets[0].slice) or pure(st.body[0].value)) \
+                    and not mentions(st.body[0].value, st.body[0].targets[0].value.id):
+                def f(stmts=stmts, i=i, st=st):
+                    a_ = st.body[0]
+                    dc = L(ast.DictComp(key=a_.targets[0].slice, value=a_.value, generators=[ast.comprehension(target=st.target, iter=st.iter, ifs=[], is_async=0)]), st)
+                    call = L(ast.Call(func=L(ast.Attribute(value=a_.targets[0].value, attr="update", ctx=ast.Load()), st), args=[dc], keywords=[]), st)
+                    stmts[i] = L(ast.Expr(value=call), st)
+                out.append(("loop-update", f))
             # flag through try: `try: f = E except T: f = False` + `if f: <simple exit>`  ->  `try: if E: <simple exit> except T: pass`
             if isinstance(st, ast.Try) and len(st.body) == 1 and len(st.handlers) == 1 and not st.orelse and not st.finalbody and rest and isinstance(rest[0], ast.If) and not rest[0].orelse \
                     and isinstance(st.body[0], ast.Assign) and len(st.body[0].targets) == 1 and isinstance(st.body[0].targets[0], ast.Name) \
